@@ -21,6 +21,12 @@ func Verif_C08_HTTPStream() {
 	fails := zv.Bool("handler-fails")
 	withMeta := zv.Bool("headers-and-trailers")
 	headerFirst := zv.Bool("client-asks-for-headers-first")
+	// the caller's context may end at any moment (environment event): whenever the
+	// call is then still reported as a success, it must be a success by the rule
+	mayCancel := zv.Bool("context-may-be-cancelled")
+	// ... and the handler may still be busy (here: waiting for that very event)
+	// when it ends, so that the end of the stream has not been seen yet
+	lingers := mayCancel && zv.Bool("handler-lingers-until-the-context-ends")
 	hooks := &verifHooks{}
 	hooks.Stream = func(tag string, ss grpc.ServerStream) error {
 		for {
@@ -35,13 +41,22 @@ func Verif_C08_HTTPStream() {
 		for i := 0; i < k; i++ {
 			ss.SendMsg(&verifMsg{Count: int32(10 + i)})
 		}
+		if lingers {
+			<-ss.Context().Done()
+		}
 		if fails {
 			return status.Error(codes.Aborted, "handler failed")
 		}
 		return nil
 	}
 	ch, _, _ := verifHTTP(hooks)
-	ctx, cancel := context.WithCancel(context.Background())
+	var ctx context.Context
+	var cancel context.CancelFunc
+	if mayCancel {
+		ctx, cancel = zv.EndableContext(false)
+	} else {
+		ctx, cancel = context.WithCancel(context.Background())
+	}
 	defer cancel()
 	cs, err := ch.NewStream(ctx, zzfix.StreamDescOf("C"), "/a/C")
 	if err != nil {
@@ -61,9 +76,14 @@ func Verif_C08_HTTPStream() {
 		zv.Assert(k == 1 && !fails, "success-only-for-exactly-one-response-and-nil-status")
 		zv.Assert(m.Count == 10, "the-delivered-message-is-that-response")
 		second := cs.RecvMsg(&verifMsg{})
-		zv.Assert(second == io.EOF, "then-clean-end")
+		if !zv.Cancelled(ctx) {
+			zv.Assert(second == io.EOF, "then-clean-end")
+		}
 	} else {
 		zv.Reach("failure")
+		if zv.Cancelled(ctx) {
+			return // the cancellation is a legitimate reason to fail (C04's subject)
+		}
 		zv.Assert(!(k == 1 && !fails), "exactly-one-response-and-nil-status-succeeds")
 		if fails && k <= 1 {
 			zv.Assert(status.Code(first) == codes.Aborted, "handler-status-reported")
